@@ -24,7 +24,7 @@ Verdict(r) ==
        ELSE IF \E i \in 1..Len(r.filters) : SeqSet(r.filters[i].filtered) # rep \ SeqSet(r.filters[i].bound) THEN "filter-wrong"
        ELSE IF \E i \in 1..Len(r.relevance) : r.relevance[i].a # r.relevance[i].b THEN "unreported-name-changes-result"
        ELSE "ok"
-Missing(r) == ToString((FreeVars(r.tree, {}) \ TypeNames) \ SeqSet(r.params))
+Missing(r) == IF "params" \in DOMAIN r THEN ToString((FreeVars(r.tree, {}) \ TypeNames) \ SeqSet(r.params)) ELSE "-"
 
 Step == /\ l <= Len(Rec)
         /\ LET v == Verdict(Rec[l]) IN IF v = "ok" THEN TRUE ELSE PrintT(<<"VERDICT", Rec[l].id, v, Missing(Rec[l])>>)
